@@ -72,7 +72,13 @@ class Cell {
     {
         g_cell.live++;
         if (loud()) {
-            copy_from(o, "kb", "ke");  // copy-construction window
+            try {
+                copy_from(o, "kb", "ke");  // copy-construction window
+            }
+            catch (...) {
+                g_cell.live--;  // never constructed: no destructor will run
+                throw;
+            }
         } else {
             a = o.a;
             b = o.b;
